@@ -4,6 +4,7 @@ import Ipv8.C18.Model
 import Ipv8.C18.Proto
 import Ipv8.C18.Range
 import Ipv8.C18.Ser
+import Ipv8.C18.Verifier
 open Ipv8 Ipv8.C18
 
 def getInts (ts : List String) : Option (List Int) := ts.mapM String.toInt?
@@ -206,6 +207,22 @@ def protoStep (toks : List String) : Option String :=
     match attUnserialize b with
     | none => some "none"
     | some (k, pairs) => some s!"{k.p} {k.ga} {k.gb} {k.ha} {k.hb} {Proto.showNatList pairs.flatten}"
+  | ["vrun", n, evs] => do
+    -- verifier bookkeeping: events flattened as (kind, id, r, honesty+1)*, kind 0 = response, 1 = time-out
+    let n ← n.toNat?
+    let flat ← Proto.natList? evs
+    let rec mk (fuel : Nat) (l : List Nat) : List VEvent :=
+      match fuel, l with
+      | f + 1, k :: id :: r :: h :: rest =>
+        (if k == 0 then VEvent.response id r (if h == 0 then none else some (h - 1)) else VEvent.timeout id) :: mk f rest
+      | _, _ => []
+    let showS (s : VState) : String :=
+      let pend := ",".intercalate (s.pending.map fun e => s!"{e.1}:{e.2}")
+      s!"u={Proto.showNatList s.unanswered};p=[{pend}];r={s.relmap.c0},{s.relmap.c1},{s.relmap.c2},{s.relmap.c3};k={s.completions.length};l={s.liar}"
+    let (_, outs) := (mk flat.length flat).foldl (fun (acc : VState × List String) e =>
+      let s' := acc.1.step e
+      (s', showS s' :: acc.2)) (VState.init n, [showS (VState.init n)])
+    some ("|".intercalate outs.reverse)
   | "rcheck" :: rest => do
     let xs ← getInts rest
     rcheck xs
